@@ -324,7 +324,7 @@ def tab_dispatch(ctx):
             ifs = [s for s in T.stmt_walk(sts) if s[0] == "if"]
             okg = len(ifs) == 1 and ifs[0][1][0] == "call" and ifs[0][1][1].endswith("is_ascii") and ifs[0][1][2][0][:2] == ("var", "bytes")
             if okg:
-                then_push = any(s[0] in ("expr", "match") and any(c[1].endswith("push_str") for c in T.sx_calls(x, "push_str")) for s in T.stmt_walk(ifs[0][2]) for x in T.stmt_exprs(s))
+                then_push = any(any(c[1].endswith("push_str") or c[1] in followed for c in T.sx_walk(x) if isinstance(c, tuple) and c and c[0] == "call") for s in T.stmt_walk(ifs[0][2]) for x in T.stmt_exprs(s))
                 else_err = any(s[0] == "return" for s in T.stmt_walk(ifs[0][3]))
                 okg = then_push and else_err
             ok = ok and okg
